@@ -608,7 +608,15 @@ func (w *worker) emit(h histSpec, calls []*callObs, kind string) {
 				if !d.fromServer {
 					src = addrNum(rq.other)
 				}
-				front := lib.I(src)
+				// the source of the datagram: address and port (the other address uses the server's port
+				// number, the third socket the server's address and another port)
+				sport := int64(rq.port)
+				if d.otherPort {
+					sport = int64(w.connC.LocalAddr().(*net.UDPAddr).Port)
+					tags["other-port"] = true
+				}
+				front := lib.L(lib.I(src), lib.I(sport))
+				fromQueried := d.fromServer && !d.otherPort
 				xflags := "0"
 				if scion {
 					front = d.front
@@ -625,7 +633,7 @@ func (w *worker) emit(h histSpec, calls []*callObs, kind string) {
 					tags["late"] = true
 				}
 				evs = append(evs, lib.L("0", lib.Bool(!rq.late), xflags, front, lib.B(d.payload), lib.I(crx.UnixNano()),
-					lib.Bool(d.fromServer), lib.Bool(d.uidOK), lib.Bool(d.authOK), bl(d.cookies), lib.Bool(spaoOK)))
+					lib.Bool(fromQueried), lib.Bool(d.uidOK), lib.Bool(d.authOK), bl(d.cookies), lib.Bool(spaoOK)))
 				if scion && i < len(rq.recipes) {
 					if d.vi.e2e {
 						tags[fmt.Sprintf("spao%d", d.vi.auth)] = true
